@@ -36,8 +36,9 @@ Section ExtractSem.
   (* the source: distinct nodes, found in the universe under their ids *)
   Hypothesis Hnd : NoDup gn.
   Hypothesis Hlookup : forall m, In m (s_nodes s) -> lookup_node univ (n_id m) = Some m.
-  (* SSA: value.producer() is the node of the source that lists the value among its outputs *)
-  Hypothesis Hprod : forall v n, h_prod h v = Some n <-> In n gn /\ In v (nouts n).
+  (* SSA, for the nodes of the source: value.producer() is n iff n lists the value among its outputs
+     (values produced by nodes of nested bodies are not constrained) *)
+  Hypothesis Hprod : forall v n, In n gn -> (h_prod h v = Some n <-> In v (nouts n)).
   (* topologically sorted, also with respect to the values captured by nested bodies *)
   Hypothesis Htopo : forall l1 n l2, gn = l1 ++ n :: l2 ->
                        forall u p, reads nins ncaps n u -> h_prod h u = Some p -> In p l1.
@@ -56,7 +57,7 @@ Section ExtractSem.
   Lemma rho_unproduced v : h_prod h v = None -> exec e0 gn v = e0 v.
   Proof.
     intros Hp. apply exec_other. intros n Hn Hv.
-    assert (h_prod h v = Some n) by (apply Hprod; split; assumption). congruence.
+    assert (h_prod h v = Some n) by (apply (Hprod v n Hn); exact Hv). congruence.
   Qed.
 
   Lemma reach_read_local u :
@@ -78,7 +79,8 @@ Section ExtractSem.
       as (H1 & H2 & H3 & H4).
     intros o Ho. rewrite H1.
     apply (sem_extracted T interp nins ncaps nouts dflt (h_prod h) (e_inputs e) (e_outputs e) gn
-             (fun n => mem n (e_nodes e)) e0 e1 Hnd Hprod Htopo).
+             (fun n => mem n (e_nodes e)) e0 e1 Hnd Hprod
+             (fun n Hn => find_bounded_outside _ _ _ _ _ _ _ _ _ (u_weight_univ h univ parent) n _ _ Hf Hn) Htopo).
     - intros n Hn. rewrite mem_In. apply H2.
     - (* the start environment agrees with the source on every needed boundary / producer-less value *)
       intros u Ru [Hu|Hu]; [apply Hin; exact Hu|].
@@ -97,7 +99,7 @@ Section ExtractSem.
         - apply H3 in Hb. destruct Hb as [(_ & _ & Hx)|(_ & _ & Hx)]; congruence.
         - destruct Hb as [m [Hm Hout]]. apply filter_In in Hm. destruct Hm as [Hm _].
           assert (h_prod h u = Some (n_id m)).
-          { apply Hprod. split; [apply in_map; exact Hm | rewrite (nouts_of m Hm); exact Hout]. }
+          { apply (Hprod u (n_id m) (in_map n_id _ _ Hm)). rewrite (nouts_of m Hm). exact Hout. }
           congruence.
         - destruct Hb as [m [S [Hm [HS Hd]]]]. apply filter_In in Hm. destruct Hm as [Hm _].
           exact (Hinner m S u Hm HS Hd Hown). }
